@@ -28,6 +28,7 @@ import MajoranaVerif.Proofs.Mvp63
 import MajoranaVerif.Proofs.Mvp63Witness
 import MajoranaVerif.Proofs.Mvp61Fwd
 import MajoranaVerif.Proofs.Mvp61Cfg
+import MajoranaVerif.Proofs.Mvp63MapOrder
 open GoInt Model.Seq Proofs.Seq
 
 namespace Props.C12
@@ -959,8 +960,57 @@ theorem mvp6x_configuration_is_constant (app : App) (ctx : Model.Context) (eu wu
       (Model.Mvp61.runFrom app fuel s 0).final.v62 = true ∧ (Model.Mvp61.runFrom app fuel s 0).final.v63 = true) := by
   have h := Proofs.Mvp61Cfg.run_cfg app fuel s
   refine ⟨fun hi => ?_, fun hi => ?_, fun hi => ?_⟩
-  · have := Proofs.Mvp61Cfg.init61_cfg hi; exact ⟨h.1.trans this.1, h.2.trans this.2⟩
-  · have := Proofs.Mvp61Cfg.init62_cfg hi; exact ⟨h.1.trans this.1, h.2.trans this.2⟩
-  · have := Proofs.Mvp61Cfg.init63_cfg hi; exact ⟨h.1.trans this.1, h.2.trans this.2⟩
+  · have := Proofs.Mvp61Cfg.init61_cfg hi; exact ⟨h.1.trans this.1, h.2.trans this.2.1⟩
+  · have := Proofs.Mvp61Cfg.init62_cfg hi; exact ⟨h.1.trans this.1, h.2.trans this.2.1⟩
+  · have := Proofs.Mvp61Cfg.init63_cfg hi; exact ⟨h.1.trans this.1, h.2.trans this.2.1⟩
+
+end Props.C12
+
+/-! ## MVP-6.3: the "no verdict" class of the tie, made precise (follow-up of package M63)
+
+The model signals a Go result that depends on map iteration order through the ghost field `State.mapOrder`
+(`Model.Mvp63.isMapOrder r = r.final.mapOrder.isSome`): `shouldUseForwarding` answers `ambiguous p q`, `handleRunner` records
+`(candidate, p, q)`, and `cycleM` ends the run right after the control unit with the distinguished panic. -/
+namespace Props.C12
+
+/-- **`maporder` iff two producers.**  `shouldUseForwarding` — the only place where MVP-6.3's result depends on Go's map
+iteration order — answers `ambiguous` EXACTLY when forwarding is tried at all (the candidate has exactly one hazard, of
+type read-after-write) and two runners with different identities among those pushed in the previous cycle each write a
+register the candidate reads (`fwdCandidates`: the matching runners with the matched register). -/
+theorem mvp63_maporder_iff_two_producers (prev : List Model.Mvp61.Runner) (r : Model.Mvp61.Runner)
+    (hz : List (Model.Mvp61.HazardType × Reg)) :
+    (∃ p q, Model.Mvp61.shouldUseForwarding prev r hz = .ambiguous p q) ↔
+      (∃ reg, hz = [(.raw, reg)]) ∧
+      ∃ c1 ∈ Model.Mvp61.fwdCandidates prev r, ∃ c2 ∈ Model.Mvp61.fwdCandidates prev r, c1.1.uid ≠ c2.1.uid :=
+  Proofs.Mvp63MapOrder.ambiguous_iff prev r hz
+
+/-- **in every other case Go's map iteration order is irrelevant**: if the answer for the runners in push order is
+`one p reg`, every matching runner has `p`'s identity and the answer for ANY permutation of the runners is `one` with that
+identity; if it is `no`, it is `no` for any permutation. -/
+theorem mvp63_forwarding_choice_order_independent {prev prev' : List Model.Mvp61.Runner} {r : Model.Mvp61.Runner}
+    {hz : List (Model.Mvp61.HazardType × Reg)} (hp : prev'.Perm prev) :
+    (∀ p reg, Model.Mvp61.shouldUseForwarding prev r hz = .one p reg →
+      (∀ c ∈ Model.Mvp61.fwdCandidates prev r, c.1.uid = p.uid) ∧
+      ∃ p' reg', Model.Mvp61.shouldUseForwarding prev' r hz = .one p' reg' ∧ p'.uid = p.uid) ∧
+    (Model.Mvp61.shouldUseForwarding prev r hz = .no → Model.Mvp61.shouldUseForwarding prev' r hz = .no) :=
+  ⟨fun _ _ h => Proofs.Mvp63MapOrder.one_of_perm h hp, fun h => Proofs.Mvp63MapOrder.no_of_perm h hp⟩
+
+/-- **a run marked `maporder` met two producers.**  If a run of MVP-6.3 (likewise 6.1, 6.2: the statement is about
+`runFrom` from any state without marker) ends with the marker `(r, p, q)`, then it ended with the distinguished panic, and
+in its last tick the control unit examined the candidate `r` while `p` and `q` — different identities, both in
+`pushedRunnersInPreviousCycle` (the final state's `cuPrev`) — each write a register `r` reads.  No other unit ever sets the
+marker (`Proofs.Mvp61Cfg.Cfg.mo` for the fetch, decode, execute and write units and every branch of `cycleM`). -/
+theorem mvp63_maporder_only_with_two_producers (app : App) (ctx : Model.Context) (eu wu fuel : Nat)
+    (w : Model.Mvp61.Runner × Model.Mvp61.Runner × Model.Mvp61.Runner)
+    (h : (Model.Mvp63.run app ctx eu wu fuel).final.mapOrder = some w) :
+    (Model.Mvp63.run app ctx eu wu fuel).halt = some (.panic Model.Mvp61.mapOrderMsg) ∧
+    w.2.1 ∈ (Model.Mvp63.run app ctx eu wu fuel).final.cuPrev ∧ w.2.2 ∈ (Model.Mvp63.run app ctx eu wu fuel).final.cuPrev ∧
+    w.2.1.uid ≠ w.2.2.uid ∧
+    (Model.Mvp61.fwdMatch w.2.1 w.1).isSome = true ∧ (Model.Mvp61.fwdMatch w.2.2 w.1).isSome = true := by
+  unfold Model.Mvp63.run at h ⊢
+  split at h
+  · rename_i s hs
+    exact Proofs.Mvp61Cfg.runFrom_mapOrder app fuel s 0 (Proofs.Mvp61Cfg.init63_cfg hs).2.2 w h
+  · cases h
 
 end Props.C12
